@@ -231,3 +231,64 @@ package mod
 //@   requires forall k string :: imp(has(c.currentRow.ColumnValues, k), c.currentRow.ColumnValues[k] != nil && c.currentRow.ColumnValues[k].Value != nil)
 //@   modifies gf(ctx.Context.ptr, "resKind"), gf(ctx.Context.ptr, "resInt"), gff(ctx.Context.ptr, "resReal"), gfs(ctx.Context.ptr, "resText"), gfs(ctx.Context.ptr, "resBlob")
 //@   ensures visible-row-readable: imp(!c.currentRow.Deleted, result == nil)
+
+// ---------------------------------------------------------------------------
+// Maintenance glue (properties C12, C13). Refresh re-opens the table with the
+// table's own options (a read-only table stays read-only: no PUT, no DELETE);
+// the two ends of a diff are always opened read-only on exactly the named
+// versions.
+//@ spec aggData(ctx *sqlite.AggregateContext) interface{} = iface2(gf(ctx, "aggTag"), gf(ctx, "aggBox"))
+//@ spec refreshName(ctx *sqlite.AggregateContext) string = aggData(ctx).(*RefreshFuncContext).tableName
+//@ func (*RefreshFunc).Final
+//@   requires h != nil && h.sc != nil && ctx != nil && ctx.Context != nil
+//@   requires aggData(ctx) == nil || (typeis(aggData(ctx), *RefreshFuncContext) && aggData(ctx).(*RefreshFuncContext) != nil)   // set by Step
+//@   requires imp(s3db.inMemoryS3 != nil, s3db.inMemoryS3.Client != nil)
+//@   modifies puts, deletes, lists, lastPutPrefix, lastPutName, lastPutOK, s3db.inMemoryS3, s3db.inMemoryBucket, s3db.tables[refreshName(ctx)].Tree, gf(ctx.Context.ptr, "resKind")
+//@   ensures readonly-table-no-write: imp(aggData(ctx) != nil && has(s3db.tables, refreshName(ctx)) && s3db.tables[refreshName(ctx)] != nil && s3db.tables[refreshName(ctx)].S3Options.ReadOnly, puts == old(puts) && deletes == old(deletes))
+//@   ensures no-call-no-effect: imp(aggData(ctx) == nil, puts == old(puts) && deletes == old(deletes) && lists == old(lists))
+//@   ensures imp(s3db.inMemoryS3 != nil, s3db.inMemoryS3.Client != nil)
+
+//@ func loadForDiffing
+//@   requires imp(s3db.inMemoryS3 != nil, s3db.inMemoryS3.Client != nil)
+//@   modifies lists, lastPutPrefix, lastPutName, lastPutOK, puts, deletes, s3db.inMemoryS3, s3db.inMemoryBucket
+//@   ensures never-writes: puts == old(puts) && deletes == old(deletes)
+//@   ensures named-no-list: imp(versions != nil, lists == old(lists))
+//@   ensures named-all-merged: forall j int :: imp(err == nil && versions != nil && 0 <= j && j < len(versions), has(result0.Root.mergedRoots, versions[j]))
+//@   ensures imp(err == nil, result0 != nil && result0.Root != nil && dbOK(result0.Root) && result0.Root.readonly)
+//@   ensures imp(err != nil, result0 == nil)
+//@   ensures imp(s3db.inMemoryS3 != nil, s3db.inMemoryS3.Client != nil)
+
+// ChangesTable.Open: both ends are opened read-only (never a PUT or DELETE);
+// named ends are read without any LIST; the cursor starts at the first
+// difference of (to, from).
+//@ func (*ChangesTable).Open
+//@   requires c != nil && c.module != nil && c.module.sc != nil && c.table != nil && c.table.Tree != nil && c.table.Tree.Root != nil && dbOK(c.table.Tree.Root)
+//@   requires imp(s3db.inMemoryS3 != nil, s3db.inMemoryS3.Client != nil)
+//@   modifies lists, lastPutPrefix, lastPutName, lastPutOK, puts, deletes, s3db.inMemoryS3, s3db.inMemoryBucket
+//@   ensures never-writes: puts == old(puts) && deletes == old(deletes)
+//@   ensures named-no-list: imp(c.fromVer != nil && c.toVer != nil, lists == old(lists))
+//@   ensures cursor: imp(result1 == nil, typeis(result0, *ChangesCursor) && result0.(*ChangesCursor) != nil && !result0.(*ChangesCursor).eof && result0.(*ChangesCursor).diffCursor != nil &&
+//@       result0.(*ChangesCursor).diffCursor.DiffCursor != nil && chPos(result0.(*ChangesCursor)) == 0 && 0 <= dN(chSnap(result0.(*ChangesCursor))) && result0.(*ChangesCursor).module == c.module && result0.(*ChangesCursor).t == c.table)
+//@   ensures from-current: imp(result1 == nil && c.fromVer == nil, dFrom(chSnap(result0.(*ChangesCursor))) == *c.table.Tree.Root.crdt.Mast)
+//@   ensures failed: imp(result1 != nil, result0 == nil)
+//@   ensures imp(s3db.inMemoryS3 != nil, s3db.inMemoryS3.Client != nil)
+
+// s3db_version: reports the version names of the table's handle; issues no
+// storage request of any kind (C11, C13).
+//@ func (*VersionFunc).Final
+//@   requires h != nil && ctx != nil && ctx.Context != nil
+//@   requires aggData(ctx) == nil || (typeis(aggData(ctx), *VersionFuncContext) && aggData(ctx).(*VersionFuncContext) != nil)   // set by Step
+//@   requires forall k string :: imp(has(s3db.tables, k) && s3db.tables[k] != nil, s3db.tables[k].Tree != nil && s3db.tables[k].Tree.Root != nil && dbOK(s3db.tables[k].Tree.Root))
+//@   modifies gf(ctx.Context.ptr, "resKind"), gfs(ctx.Context.ptr, "resText")
+//@   ensures no-request: puts == old(puts) && deletes == old(deletes) && lists == old(lists)
+
+// s3db_vacuum: the table-valued function hands the parsed cutoff to
+// s3db.Vacuum; on a read-only table nothing is written (C13).
+//@ spec vacName(values []sqlite.Value) string = valText(values[0])
+//@ func (*VacuumCursor).Filter
+//@   requires vc != nil && vc.module != nil && vc.module.sc != nil && vc.module.sc.ctx != nil
+//@   requires forall k string :: imp(has(s3db.tables, k) && s3db.tables[k] != nil, vtOK(s3db.tables[k]))
+//@   requires forall k string, i int :: imp(has(s3db.tables, k) && s3db.tables[k] != nil, vacShape(*s3db.tables[k].Tree.Root.crdt.Mast, i))
+//@   modifies vc.tableName, vc.beforeTime, vc.vacuumErr, puts, deletes, lastPutPrefix, lastPutName, lastPutOK, s3db.tables[vacName(values)].Tree.Root
+//@   ensures readonly-no-write: imp(len(values) == 2 && has(s3db.tables, vacName(values)) && s3db.tables[vacName(values)] != nil && old(s3db.tables[vacName(values)].Tree.Root.readonly), puts == old(puts) && deletes == old(deletes))
+//@   ensures rejected-no-effect: imp(result != nil, puts == old(puts) && deletes == old(deletes))
